@@ -75,6 +75,9 @@ def replay_migrate(inp):
             ufo2, out2 = migrate(layers, -1, stubs)
     except Exception as e:
         return {"raised": repr(e), "A": list(A)}
+    bad = [f for layer in out1.painted_layers for f in ps.unencodable_fields(layer)]
+    if bad:
+        return {"fields that do not fit their OT encoding": bad[:4], "A": list(A)}
     l1 = [lf for layer in out1.painted_layers for lf in ps.denote(layer)]
     l2 = [lf for layer in out2.painted_layers for lf in ps.denote(layer)]
     if len(l1) != len(l2):
@@ -176,6 +179,9 @@ def job_migrate(jc):
         if len(l1) != len(l2) or len(l1) != 2:
             jc.prove(r, z3.BoolVal(False), "same number of layers with and without reuse", inp, replay_migrate, key=key)
             continue
+        with core.post(r):
+            enc = z3.And(*[ps.encodable(layer, gradients=False) for layer in out1.painted_layers])
+        jc.prove(r, enc, "every transform number in the reuse-enabled paint tree fits its OT field (Fixed / F2Dot14 / int16): the table still compiles", inp, replay_migrate, key=key + ":encodable")
         # disabling reuse must not consult picosvg at all, enabling passes tau/10 and tau
         wiring = calls2 == calls and all(abs(t - 0.01) < 1e-12 for t in calls[0]) and all(abs(t - 0.1) < 1e-12 for t in calls[1])
         jc.prove(r, z3.BoolVal(wiring), "tolerance -1 never consults picosvg; reuse passes tolerance/10 to normalize and tolerance to affine_between", inp, replay_migrate, key=key + ":tolerances")
